@@ -51,7 +51,7 @@ def factory_facts(prog: Program, direction: str):
                     else:
                         facts["bad_keys"].append(T.show(k)[:60])
             disp = stored.get("type")
-            ok = disp is not None and T.is_call_to(disp, f"{api}._get_unmarshaller") and (disp[2][:1] == (node,) or dict(disp[3]).get("node") == node)
+            ok = disp is not None and T.is_call_to(disp, C.dispatcher(prog, direction).qualname) and (disp[2][:1] == (node,) or dict(disp[3]).get("node") == node)
             ctx_arg = None
             if disp is not None and disp[0] == "call":
                 ctx_arg = dict(disp[3]).get("context") or (disp[2][1] if len(disp[2]) > 1 else None)
@@ -72,8 +72,7 @@ def factory_facts(prog: Program, direction: str):
 
 
 def dispatch_facts(prog: Program, direction: str):
-    api = C.DIRS[direction][0]
-    f = prog.function(f"{api}._get_unmarshaller")
+    f = C.dispatcher(prog, direction)
     facts = {"check_arg": set(), "ctor_arg": set(), "shortcut": False, "fallback": None, "fallback_arg": None, "var": True, "loc": f.loc, "qual": f.qualname}
     node = ("param", "node")
     for p in P.paths_of(prog, f):
